@@ -102,6 +102,11 @@ func xmlUnmarshalDocument(data []byte, obj interface{}) error {
 
 func xmlUnmarshalElement(el *etree.Element, obj interface{}) error {
 	doc := etree.NewDocument()
+	// Write carriage returns (and tabs / line feeds in attribute values) as character
+	// references: written raw, the decoder below would normalise them away and the
+	// decoded value would differ from the one in the (possibly signed) element.
+	doc.WriteSettings.CanonicalText = true
+	doc.WriteSettings.CanonicalAttrVal = true
 	doc.SetRoot(el)
 	data, err := doc.WriteToBytes()
 	if err != nil {
